@@ -21,3 +21,11 @@ func init() {
 	prop("C02", "C02-R4")
 	prop("C20", "C20-R2", "C20-R3")
 }
+
+func init() {
+	prop("C01", "C01-R6")
+	prop("C13", "C13-R5")
+	prop("C05", "C05-R1")
+	prop("C03", "C03-R4")
+	prop("C04", "C04-R5")
+}
